@@ -211,7 +211,8 @@ def run_case(ctx, case, rng):
     except Exception as e:  # pylint: disable=broad-except
       res = None
       ctx.violation('validate_raised', {'exc': common.exc_signature(e)[:80], 'metric': metric, 'pair': 'self',
-                                        'duplicate_output': 'duplicate_output' in spec.classes}, base)
+                                        'duplicate_output': 'duplicate_output' in spec.classes,
+                                        'input_is_also_output': 'input_is_also_output' in spec.classes}, base)
     for s in spec.signatures if res is not None else []:
       check_result(ctx, res.get_signature_comparison_result(s['key']), src, spec.content, spec.content, s, datasets[s['key']],
                    metric, dict(base, pair='self'), expect_zero=True)
@@ -248,7 +249,8 @@ def run_case(ctx, case, rng):
       res = run.qt.validate(test, metric, use_reference_kernel=REFERENCE_KERNELS[0])
     except Exception as e:  # pylint: disable=broad-except
       ctx.violation('validate_raised', {'exc': common.exc_signature(e)[:80], 'metric': metric,
-                                        'duplicate_output': 'duplicate_output' in spec.classes}, d)
+                                        'duplicate_output': 'duplicate_output' in spec.classes,
+                                        'input_is_also_output': 'input_is_also_output' in spec.classes}, d)
       return
     qm = models.read(run.out)
     n_q = sum(1 for sg in qm.subgraphs for t in sg.tensors if t.quantization is not None and t.quantization.scale is not None)
